@@ -117,7 +117,7 @@ def same_state(state, snap):
 def recover_and_judge(dirpath, layout, acked, both, inflight_sql, deep, tag):
     """Open a copy of `dirpath`; returns (violations, info)."""
     v = []
-    info = dict(matched=None, recrash_points=0)
+    info = dict(matched=None, recrash_points=0, second_open=0)
     work = scratch_dir("rec")
     snaps2 = scratch_dir("rec2")
     rl = None
@@ -201,6 +201,22 @@ def recover_and_judge(dirpath, layout, acked, both, inflight_sql, deep, tag):
             if not (x["ok"] and y["ok"] and z["ok"] and ms(z["rows"]) == [(1,), (2,)]):
                 v.append((f"post-recovery-statement-fails:{tag}", f"create/insert/select after recovery: {[(q.get('err'), q.get('panics')) for q in (x, y, z) if not q['ok']]}"))
                 return v, info
+            # "recovering again gives the same state": what the recovery left on disk (the torn tail it
+            # skipped, the files it removed, the manifest it rewrote) plus the statements made since must
+            # open again, with the same contents
+            st_before, why = read_state(w)
+            try:
+                ro = r.cmd({"op": "reopen"}, timeout=60)
+            except (RunnerDied, RunnerTimeout) as e:
+                ro = {"ok": False, "err": f"process died / watchdog: {e}"}
+            if not ro.get("ok"):
+                v.append((f"second-open-after-recovery-fails:{tag}", f"the recovered database took new statements, was shut down, and does not open again: {ro.get('err')} {ro.get('panics')}"))
+                return v, info
+            st_after, why2 = read_state(w)
+            if st_before is None or st_after is None or st_before != st_after:
+                v.append((f"second-open-after-recovery-differs:{tag}", f"state after recovery + statements {None if st_before is None else {n: len(x) for n, x in st_before.items()}} ({why}); after the next open {None if st_after is None else {n: len(x) for n, x in st_after.items()}} ({why2})"))
+                return v, info
+            info["second_open"] = 1
             # a crash during the recovery itself
             if deep and recrash:
                 info["recrash_points"] = len(recrash)
@@ -320,6 +336,7 @@ def run_workload(args):
                 v, info = recover_and_judge(snapdir, layout, before, after, inflight, deep, step)
                 res["states"] += 1
                 res["recrash"] += info["recrash_points"]
+                res["second_open"] = res.get("second_open", 0) + info.get("second_open", 0)
                 res["distinct"].append(h([step, kind, info["matched"]]))
                 if info["matched"]:
                     res["matched"][info["matched"]] = res["matched"].get(info["matched"], 0) + 1
@@ -329,6 +346,7 @@ def run_workload(args):
                     try:
                         v, info = recover_and_judge(tdir, layout, before, after, inflight, False, label)
                         res["states"] += 1
+                        res["second_open"] = res.get("second_open", 0) + info.get("second_open", 0)
                         res["by_step"][label] = res["by_step"].get(label, 0) + 1
                         res["distinct"].append(h([label, kind, info["matched"]]))
                         for sig, what in v:
@@ -360,13 +378,14 @@ def run(tier, seed):
     n, exhaustive = (24, False) if tier == "quick" else (600, True)
     rep.rule = ("workloads of 6-14 statements (create/insert/delete/drop, compaction+vacuum passes, clean reopen) on 2 layouts; "
                 "every persistence step of one real execution is a crash state, plus torn variants (quick: 5 prefixes; thorough: "
-                "every byte prefix of manifest records and DV files) and crashes during the recovery of a sample of states; "
+                "every byte prefix of manifest records and DV files) and crashes during the recovery of a sample of states; every recovered state takes new statements and is then shut down and opened a second time; "
                 "distinct non-trivial = distinct (step, statement kind, which model matched)")
     by_step, matched = {}, {}
-    recrash = 0
+    recrash = second_open = 0
     for res in parallel_map(run_workload, [(seed, i, exhaustive) for i in range(n)]):
         rep.evaluations += res["states"]
         recrash += res["recrash"]
+        second_open += res.get("second_open", 0)
         rep.distinct.update(res["distinct"])
         for k, v in res["by_step"].items():
             by_step[k] = by_step.get(k, 0) + v
@@ -378,7 +397,9 @@ def run(tier, seed):
         for sig, what in res["violations"]:
             rep.add_violation(Violation(sig, what, dict(seed=res["seed"], idx=res["idx"], exhaustive=exhaustive)))
     run_sentinels(rep, sentinel)
-    rep.coverage.update(crash_states_by_step=by_step, recovered_state_matched=matched, crashes_during_recovery=recrash)
+    rep.coverage.update(crash_states_by_step=by_step, recovered_state_matched=matched, crashes_during_recovery=recrash,
+                        second_opens_after_recovery_and_new_statements=second_open)
+    rep.floor("second opens after recovery", second_open, n * 15)
     rep.floor("crash states recovered", rep.evaluations, n * 20)
     rep.floor("distinct persistence steps hit", len([k for k in by_step if not k.endswith(":torn")]), 12)
     rep.assumptions = ["process death only: everything written before the crash point is in the copied directory (no loss of un-fsynced page cache)",
